@@ -164,10 +164,11 @@ def gen_c04(seed, count):
             elif x < 0.60 and pend:
                 pid = r.choice(pend)
                 pend.remove(pid)
-                c.feed(ack(6, pid, None))
+                # a PUBREL may carry a reason code (0x92 after the broker saw a stale PUBREC): it is answered all the same
+                c.feed(ack(6, pid, r.choice([None, None, None, 0, 0x92])))
                 c.poll()
             elif x < 0.66:
-                c.feed(ack(6, r.choice(ids), r.choice([None, 0])))
+                c.feed(ack(6, r.choice(ids), r.choice([None, 0, 0x92])))
                 c.poll()
             elif x < 0.78:
                 c.feed(publish(1, r.choice(ids), b'q1', b'one', dup=r.random() < 0.2))
@@ -248,8 +249,13 @@ def gen_c12(seed, count):
             n = r.randint(0, 30)
             c.ev(*([(0, r.choice([1, 3, 1000]))] * n + [(r.choice([1, 2, 3]), 0)]))
         c.drop()
-        c.broker(2)
-        c.connect()
+        if r.random() < 0.3:
+            # the broker has lost the session: a fresh one, whatever was in flight before
+            c.broker(0)
+            c.connect(connack(0, 0, r.choice([[], [(33, 1)], [(33, 3)]])))
+        else:
+            c.broker(2)
+            c.connect()
         c.publish(b'after', b'q', qos=1)
         c.poll(2)
         out.append(c.line())
@@ -769,9 +775,10 @@ def gen_c06(seed, count):
                     c.feed(ack(4, p)).poll()
                     del pubs[p]
                 elif ph == 'pub':
-                    rc = r.choice([None, None, 0x80])
+                    # 0x10 (no matching subscribers) is a SUCCESS: the exchange goes on, its slot stays taken
+                    rc = r.choice([None, None, 0x10, 0x80, 0x97])
                     c.feed(ack(5, p, rc)).poll()
-                    if rc:
+                    if rc and rc >= 0x80:
                         del pubs[p]
                     else:
                         pubs[p][1] = 'rel'
